@@ -38,7 +38,7 @@ def dmrg_matvec(A, x, y0 = None,nswp = 20, eps = 1e-12, rmax = 32768, kickrank =
     Returns:
         TT: the result.
     """
-    if _flag_use_cpp and use_cpp:
+    if _flag_use_cpp and use_cpp and len(A.N) > 1:
         return torchtt.TT(torchttcpp.dmrg_mv(A.cores, x.cores, [] if y0 is None else y0.cores, A.M, A.N, x.R, [] if y0 is None else y0.R, nswp, eps, rmax, kickrank, verb))
         #return dmrg_matvec_python(A, x, y0, nswp, eps, rmax, kickrank, verb)
     else:
